@@ -7,18 +7,18 @@ NOT decided here.
 """
 PRELUDE = r'''
 #define VACUITY_PROBE() __CPROVER_assert(0, "vacuity-probe")
-long nondet_long(void); unsigned nondet_uint(void); _Bool nondet_bool(void);
+long nondet_long(void); unsigned nondet_uint(void); _Bool nondet_bool(void); void *malloc(__CPROVER_size_t);
 /* ---- ASSUMED models ---- */
 long thread_getid(void) { return nondet_long(); }
 void logelem_ctor(struct logelem_m *le, long tid, long *str, unsigned level, const char *fl, unsigned val)
-{ le->tid = tid; le->_str = *str; le->level = level; le->fileline = fl; le->val = val; }
+{ le->tid = tid; le->_str = *str; le->level = level; le->fileline = fl; le->_val = val; }
 /* ghost log of the queue */
 long g_push_calls, g_accepted; _Bool g_last_accepted; long g_last_str; unsigned g_last_level, g_last_val;
 _Bool queue_try_push(struct queue_m *q, struct logelem_m *le)
 {
   _Bool ok = nondet_bool();                  /* the queue accepts or refuses */
   g_push_calls++; g_last_accepted = ok;
-  if (ok) { g_accepted++; g_last_str = le->_str; g_last_level = le->level; g_last_val = le->val; }
+  if (ok) { g_accepted++; g_last_str = le->_str; g_last_level = le->level; g_last_val = le->_val; }
   return ok;
 }
 /* ---- the consumer side: the queue as a ghost FIFO of accepted lines, with the stop marker (an empty line) that stop() enqueues AFTER requesting the stop ---- */
@@ -44,6 +44,18 @@ _Bool queue_try_pop(struct queue_m *q, struct logelem_m **out)
 void queue_release(struct queue_m *q, struct logelem_m *e) { if (g_released < 1000000000L) g_released++; }
 _Bool str_empty_id(const long *s) { return *s == 0; }
 void sleep_model(unsigned us) { }
+/* ---- flush(): the buffered lines as an array of line identities; the stream as a ghost count of insertions ---- */
+struct os_m g_stream; long *g_items0; long g_n; long g_written; _Bool g_in_order, g_all_writes_locked, g_locked; const void *g_lock_obj; long g_acquires, g_releases;
+void guard_acquired(const void *m) { g_locked = 1; g_lock_obj = m; if (g_acquires < 1000) g_acquires++; }
+void guard_released(const void *m) { g_locked = 0; if (g_releases < 1000) g_releases++; }
+long *list_begin(struct list_m *l) { return l->items; }
+long *list_end(struct list_m *l) { return l->items + l->n; }
+void list_clear(struct list_m *l) { l->n = 0; }
+struct os_m *logger_get_stream(const void *self) { return &g_stream; }
+struct os_m *stream_put_line(struct os_m *os, const long *s)
+{ if (s != g_items0 + g_written) g_in_order = 0; if (!g_locked) g_all_writes_locked = 0; if (g_written < 1000000000L) g_written++; return os; }   /* one line inserted: which one, and under the lock? */
+struct os_m fostr; unsigned g_num_written; long g_num_calls;           /* process_logline's per-position stream (declared outside the extracted statement) and the number inserted into it */
+struct os_m *stream_put_uint(struct os_m *os, unsigned v) { g_num_written = v; if (g_num_calls < 1000) g_num_calls++; return os; }
 struct FIX8_Logger;
 void logger_process_logline(struct FIX8_Logger *self, struct logelem_m *e) { __CPROVER_assert(e->_str != 0, "C28.consumer.the_stop_marker_is_never_written_as_a_line"); if (g_processed < 1000000000L) g_processed++; }
 '''
@@ -56,6 +68,34 @@ void h_consumer(void)
   logger_consumer(&lg);
   __CPROVER_assert(g_q_lines == 0, "C28.consumer.ends_only_when_every_accepted_line_has_been_written");
   __CPROVER_assert(g_stop_requested, "C28.consumer.ends_only_after_stop_was_requested");
+  VACUITY_PROBE();
+}
+/* flush(): every buffered line is inserted into the stream exactly once, in buffer order, under the logger's mutex, and the buffer is empty afterwards */
+void h_flush(void)
+{
+  struct FIX8_Logger lg; long n = nondet_long(); __CPROVER_assume(n >= 0 && n <= 1000000);
+  long *items = malloc(sizeof(long) * (n + 1)); __CPROVER_assume(items != 0);
+  lg._buffer.items = items; lg._buffer.n = n; lg._lines = nondet_uint();
+  g_items0 = items; g_n = n; g_written = 0; g_in_order = 1; g_all_writes_locked = 1; g_locked = 0; g_acquires = 0; g_releases = 0;
+  logger_flush(&lg);
+  __CPROVER_assert(g_written == n, "C28.flush.every_buffered_line_is_written_exactly_once");
+  __CPROVER_assert(g_in_order, "C28.flush.lines_are_written_in_buffer_order");
+  __CPROVER_assert(lg._buffer.n == 0 && lg._lines == 0, "C28.flush.the_buffer_is_empty_afterwards_so_no_line_is_written_twice");
+  __CPROVER_assert(g_all_writes_locked && g_lock_obj == (const void *)&lg._mutex && g_locked && g_acquires == 1 && g_releases == 0, "C28.flush.writes_and_the_clearing_happen_under_one_hold_of_the_logger_mutex");
+  VACUITY_PROBE();
+}
+/* process_logline, `case sequence:`: each line takes the next number of its own counter -- one counter when the logger does not separate directions, one per direction when it does */
+void h_sequence(void)
+{
+  struct FIX8_Logger lg; struct logelem_m e; lg._flags.a_ = nondet_uint(); lg._sequence = nondet_uint(); lg._osequence = nondet_uint(); e._val = nondet_uint();
+  __CPROVER_assume(lg._sequence < 0xffffffffu && lg._osequence < 0xffffffffu);
+  unsigned s0 = lg._sequence, o0 = lg._osequence; _Bool by_direction = (lg._flags.a_ >> K_direction) & 1u; g_num_calls = 0;
+  logger_number_line(&lg, &e);
+  _Bool inbound_counter = !by_direction || e._val != 0;
+  __CPROVER_assert(g_num_calls == 1, "C28.sequence.exactly_one_number_is_written_per_line");
+  __CPROVER_assert(inbound_counter ? (lg._sequence == s0 + 1 && lg._osequence == o0) : (lg._osequence == o0 + 1 && lg._sequence == s0), "C28.sequence.exactly_one_counter_advances_by_one");
+  __CPROVER_assert(g_num_written == (inbound_counter ? s0 + 1 : o0 + 1), "C28.sequence.the_number_written_is_the_successor_of_the_previous_line_of_the_same_counter");
+  __CPROVER_assert(by_direction || lg._osequence == o0, "C28.sequence.a_logger_that_does_not_separate_directions_numbers_all_lines_from_one_counter");
   VACUITY_PROBE();
 }
 /* enqueue: exactly one submission, and the return value says whether the queue accepted it */
@@ -87,17 +127,59 @@ void h_send(void)
   VACUITY_PROBE();
 }
 '''
+def _contains(n, pred):
+    if pred(n):
+        return True
+    return any(isinstance(c, dict) and _contains(c, pred) for c in n.get('inner', []) or [])
+
+
+def _is_sequence_numbering(n):
+    """the statement of Logger::process_logline that numbers a line: the innermost statement that contains an increment of _sequence and no case label / switch / loop --
+    on the current tree the `if (_flags & direction) ... else ...` of `case sequence:`"""
+    if n.get('kind') in ('CompoundStmt', 'SwitchStmt', 'CaseStmt', 'DefaultStmt', 'CXXForRangeStmt', 'ForStmt', 'WhileStmt', 'DoStmt'):
+        return False
+    inc = lambda x: x.get('kind') == 'UnaryOperator' and x.get('opcode') == '++' and _contains(x, lambda y: y.get('kind') == 'MemberExpr' and y.get('name') == '_sequence')
+    if not _contains(n, inc):
+        return False
+    return not _contains(n, lambda x: x.get('kind') in ('SwitchStmt', 'CaseStmt', 'CXXForRangeStmt'))
+
+
+def _put_free(em, n, args, stmt):
+    """std::operator<<(ostream&, X): a string is a line (flush); a manipulator object (setw/setfill) changes formatting only and leaves the stream's content alone"""
+    t = em.tstr(args[1]['type'])
+    if '_Setw' in t or '_Setfill' in t:
+        em.rules['stream_manipulator_dropped'] += 1
+        return em.expr(args[0])
+    return '(*stream_put_line(%s, %s))' % (em.lvalue_addr(args[0]), em.lvalue_addr(args[1]))
+
+
+def _put_member(em, n, args, stmt):
+    """ostream::operator<<(X): a function manipulator (endl, right) leaves the content alone; an unsigned value is recorded as the number written"""
+    t = em.tstr(args[1]['type'])
+    if '(*)' in t or '(&)' in t or t.strip().endswith(')'):
+        em.rules['stream_manipulator_dropped'] += 1
+        return em.expr(args[0])
+    return '(*stream_put_uint(%s, %s))' % (em.lvalue_addr(args[0]), em.expr(args[1]))
+
+
 UNIT = dict(
     name='k_log', tu='tu/rt_logger.cpp', no_follow=True,
+    probe={'K_direction': 'FIX8::Logger::direction'},
     emit=dict(
-        pod=[r'std::basic_string<char>'],
+        pod=[r'std::basic_string<char>', r'(std::)?(__cxx11::)?list<.*>'],
         type_map=[(r'(std::basic_string<char>|std::string|FIX8::f8String)', 'long'),
                   (r'FIX8::ff_unbounded_queue<FIX8::Logger::LogElement>', 'struct queue_m'),
                   (r'(const )?FIX8::Logger::LogElement', 'struct logelem_m'),
-                  (r'FIX8::Logger::Level', 'unsigned int'), (r'FIX8::ebitset<FIX8::Logger::Level>::integral_type', 'unsigned int'),
+                  (r'FIX8::Logger::Level', 'unsigned int'), (r'(const )?FIX8::Logger::Flags', 'unsigned int'), (r'FIX8::ebitset<FIX8::Logger::Flags>::integral_type', 'unsigned int'), (r'FIX8::ebitset<FIX8::Logger::Level>::integral_type', 'unsigned int'),
+                  (r'(std::)?(__cxx11::)?list<.*>', 'struct list_m'), (r'std::_List_(const_)?iterator<.*>', 'long *'), (r'(std::)?(__cxx11::)?(basic_)?o(string)?stream(<char.*>)?', 'struct os_m'), (r'FIX8::f8_mutex', 'struct mutex_m'),
                   (r'(FIX8::)?thread_id_t', 'long'), (r'FIX8::f8_thread_cancellation_token', 'int')],
         lazy_structs=[r'FIX8::Logger', r'FIX8::ebitset<.*>'],
-        calls={'getid': 'thread_getid',
+        globals={'fostr': 'fostr'},      # the local stream of process_logline's loop body, declared outside the statement that is extracted
+        guard_ghost='guard_acquired', guard_ghost_release='guard_released',
+        calls_rx=[(r'(std::)?(__cxx11::)?list<.*>::begin', 'list_begin'), (r'(std::)?(__cxx11::)?list<.*>::end', 'list_end'), (r'(std::)?(__cxx11::)?list<.*>::clear', 'list_clear'),
+                  ],
+        call_handlers={'std::basic_ostream<char>::operator<<': _put_member, 'operator<<': _put_free},
+        calls={'getid': 'thread_getid', 'FIX8::Logger::get_stream': dict(c='logger_get_stream', sig='std::ostream &() const'),
                'FIX8::Logger::LogElement::LogElement': 'logelem_ctor',
                'struct logelem_m::LogElement': 'logelem_ctor',
                'FIX8::ff_unbounded_queue<FIX8::Logger::LogElement>::try_push': dict(c='queue_try_push', sig='bool (const FIX8::Logger::LogElement &)'),
@@ -107,16 +189,23 @@ UNIT = dict(
                'std::basic_string<char>::empty': 'str_empty_id', 'FIX8::Logger::process_logline': 'logger_process_logline',
                'FIX8::Logger::is_loggable': 'logger_is_loggable',
                'FIX8::Logger::enqueue': dict(c='logger_enqueue', sig='bool (const std::string &, FIX8::Logger::Level, const char *, const unsigned int)'),
-               'FIX8::ebitset<FIX8::Logger::Level>::operator&': 'levels_and', 'FIX8::ebitset<FIX8::Logger::Level>::has': 'levels_has', 'FIX8::ebitset<FIX8::Logger::Level>::get': 'levels_get'}),
-    pre_structs='struct queue_m { int dummy; };\nstruct logelem_m { long tid; long _str; unsigned level; const char *fileline; unsigned val; };\n',
+               'FIX8::ebitset<FIX8::Logger::Flags>::operator&': 'flags_and', 'FIX8::ebitset<FIX8::Logger::Level>::operator&': 'levels_and', 'FIX8::ebitset<FIX8::Logger::Level>::has': 'levels_has', 'FIX8::ebitset<FIX8::Logger::Level>::get': 'levels_get'}),
+    pre_structs='struct queue_m { int dummy; };\nstruct list_m { long *items; long n; };\nstruct os_m { int dummy; };\nstruct mutex_m { int dummy; };\nstruct logelem_m { long tid; long _str; unsigned level; const char *fileline; unsigned _val; };\n',
     prelude=PRELUDE,
+    force_fields={'FIX8::Logger': [('_flags', 'FIX8::ebitset<FIX8::Logger::Flags>'), ('_sequence', 'unsigned int'), ('_osequence', 'unsigned int'),
+                                   ('_buffer', 'std::list<std::string>'), ('_lines', 'unsigned long'), ('_mutex', 'FIX8::f8_mutex'), ('_levels', 'FIX8::ebitset<FIX8::Logger::Level>')]},
     functions=[
         dict(q='FIX8::ebitset::operator&', filter='FIX8::ebitset', mangled='_ZNK4FIX87ebitsetINS_6Logger5LevelEjEanES2_', cname='levels_and', optional=True),
+        dict(q='FIX8::ebitset::operator&', filter='FIX8::ebitset', mangled='_ZNK4FIX87ebitsetINS_6Logger5FlagsEjEanES2_', cname='flags_and'),
         dict(q='FIX8::ebitset::has', filter='FIX8::ebitset', mangled='_ZNK4FIX87ebitsetINS_6Logger5LevelEjE3hasES2_', cname='levels_has', optional=True),
         dict(q='FIX8::ebitset::get', filter='FIX8::ebitset', mangled='_ZNK4FIX87ebitsetINS_6Logger5LevelEjE3getEv', cname='levels_get', optional=True),
         dict(q='FIX8::Logger::is_loggable', sig=None, cname='logger_is_loggable'),
         dict(q='FIX8::Logger::enqueue', sig=None, cname='logger_enqueue'),
         dict(q='FIX8::Logger::send', sig=None, cname='logger_send'),
+        dict(q='FIX8::Logger::process_logline', sig=None, cname='logger_number_line', keep_logging=True, select_node=_is_sequence_numbering),
+        dict(q='FIX8::Logger::flush', sig=None, cname='logger_flush', keep_logging=True,
+             loops={0: dict(assigns='__begin1, g_written, g_in_order, g_all_writes_locked',
+                            invariants=[('inv.cursor', '0 <= g_written && g_written <= g_n && g_n <= 1000000 && __CPROVER_same_object(__begin1, g_items0) && __CPROVER_POINTER_OFFSET(__begin1) == g_written * (long)sizeof(long) && __end1 == g_items0 + g_n'), ('inv.so_far', 'g_in_order && g_all_writes_locked')])}),
         dict(q='FIX8::Logger::operator()', sig=None, cname='logger_consumer',
              loops={0: dict(assigns='received, g_q_lines, g_stop_requested, g_marker_in_queue, g_processed, g_released, g_pops, g_popped',
                             invariants=[('inv.queue', 'g_q_lines >= 0 && g_q_lines <= 1000000000L && (!g_marker_in_queue || g_stop_requested)')])}),
@@ -124,10 +213,12 @@ UNIT = dict(
     postlude=POST,
     proofs=[
         dict(name='consumer', harness='h_consumer', loop_contracts=True, properties=['C28'], solvers=['cadical', 'z3'], timeout=dict(quick=300, thorough=900), floor=2, level='proved-modular'),
+        dict(name='flush', harness='h_flush', loop_contracts=True, properties=['C28'], solvers=['cadical', 'z3'], timeout=dict(quick=300, thorough=900), floor=4, level='proved-modular'),
+        dict(name='sequence', harness='h_sequence', properties=['C28'], solvers=['cadical', 'z3'], timeout=dict(quick=120, thorough=300), floor=4, level='proved-modular'),
         dict(name='enqueue', harness='h_enqueue', properties=['C28'], solvers=['cadical', 'z3'], timeout=dict(quick=120, thorough=300), floor=3, level='proved-modular'),
         dict(name='send', harness='h_send', properties=['C28'], solvers=['cadical', 'z3'], timeout=dict(quick=120, thorough=300), floor=5, level='proved-modular'),
     ],
     trusted_base=['ASSUMED: f8_concurrent_queue::try_push returns true exactly when it accepted the element (FastFlow wrapper ff_wrapper.hpp), the LogElement constructor stores its arguments, '
                   'f8_thread::getid returns the caller\'s thread id (model bodies in specs/k_log.py)'],
-    assumptions=['the consumer loop is verified against an environment model (other threads act between its steps); producer-side interleavings (exactly once / in order under concurrent producers) are not decided'],
+    assumptions=['flush: std::list<std::string> is an array view of line identities and std::ostream a ghost count of insertions (ASSUMED: operator<< inserts its argument once; endl, setw, right, setfill do not change which lines are written); process_logline: only the statement that numbers a line is extracted (select_node), its stream `fostr` is a model object', 'the consumer loop is verified against an environment model (other threads act between its steps); producer-side interleavings (exactly once / in order under concurrent producers) are not decided'],
 )
